@@ -125,7 +125,8 @@ def check(rng, deep):
     fixtures = [('sim', m.sim, m.SIM_CALIB, ['r', 'w', 'beta', 'sd_e', 'rho_e'], ['A', 'C', 'SHARE', 'AINC'], True),
                 ('pair_het', m.pair_het, m.PAIR_CALIB, ['r', 'atw', 'shift', 'risk', 'sd_e'], ['A', 'C', 'UC'], True),
                 ('pair_stage', m.pair_stage, m.PAIR_CALIB, ['r', 'atw', 'shift', 'risk', 'sd_e'], ['A', 'C', 'UC'], False),
-                ('multi', m.multi, mc, ['r', 'w', 'shift_e', 'shift_z'], ['A', 'C'], True)]
+                ('multi', m.multi, mc, ['r', 'w', 'shift_e', 'shift_z'], ['A', 'C'], True),
+                ('dchoice', m.dchoice, m.DCHOICE_CALIB, ['r', 'atw', 'f', 'vphi'], ['A', 'C'], False)]       # stage block with a logit discrete-choice stage and two exogenous stages
     for name, blk, calib, inputs, outputs, has_opts in fixtures:
         ss = blk.steady_state(calib)
         kw = dict(twosided=True) if has_opts else {}
